@@ -529,6 +529,82 @@ func c10CharSpelling(c *fw.Ctx, r *rand.Rand) {
 	c10Compare(c, s, texts, "chars")
 }
 
+// c10QuoteSpelling: \Q..\E literals with cased letters inside and outside ASCII (two to four
+// UTF-8 bytes, case orbits of two and three members), with and without folding, in both modes,
+// between ordinary atoms; texts are all case variants of the quoted text, neighbours and prefixes.
+func c10QuoteSpelling(c *fw.Ctx, r *rand.Rand) {
+	m := rx.Mode{Bytes: r.Intn(4) == 0, Fold: r.Intn(2) == 0}
+	n := 1 + r.Intn(4)
+	var chars []rune
+	for len(chars) < n {
+		ch := rx.CasedLetters[r.Intn(len(rx.CasedLetters))]
+		if r.Intn(4) == 0 {
+			ch = rune("0_+ .-"[r.Intn(6)])
+		}
+		if m.Bytes && rx.ByteFoldTrap(ch) {
+			continue
+		}
+		chars = append(chars, ch)
+	}
+	var re *rx.Node = &rx.Node{Kind: rx.KQuote, Text: string(chars)}
+	var pre, suf []rune
+	if r.Intn(2) == 0 {
+		pre = []rune{rune("x1("[r.Intn(3)])}
+	}
+	if r.Intn(2) == 0 {
+		suf = []rune{rune("y2)"[r.Intn(3)])}
+	}
+	parts := []*rx.Node{}
+	for _, p := range pre {
+		parts = append(parts, rx.Ch(p))
+	}
+	parts = append(parts, re)
+	if r.Intn(5) == 0 {
+		parts[len(parts)-1] = rx.Rep(re, 1, 2) // a quantifier after \E covers the whole quoted text
+	}
+	for _, p := range suf {
+		parts = append(parts, rx.Ch(p))
+	}
+	re = rx.Cat(parts...)
+	if r.Intn(2) == 0 {
+		re = &rx.Node{Kind: rx.KFold, On: r.Intn(4) != 0, Sub: []*rx.Node{re}}
+	}
+	s := c10OneRule(m, re, rx.Defs{}, nil, r)
+	all := append(append(append([]rune(nil), pre...), chars...), suf...)
+	var texts []string
+	var rec func(i int, cur string)
+	rec = func(i int, cur string) {
+		if len(texts) > 300 {
+			return
+		}
+		if i == len(all) {
+			texts = append(texts, cur, cur+"x", cur+string(chars))
+			return
+		}
+		alts := rx.Orbit(all[i], false)
+		if r.Intn(3) == 0 {
+			alts = append(alts, all[i]+1)
+		}
+		for _, a := range alts {
+			if a >= 0xd800 && a <= 0xdfff || a > rx.MaxRune {
+				continue
+			}
+			rec(i+1, cur+string(a))
+		}
+	}
+	rec(0, "")
+	full := string(all)
+	for i := 1; i < len(full); i++ {
+		texts = append(texts, full[:i])
+	}
+	texts = append(texts, "")
+	c.Count("quoted_literal_patterns", 1)
+	if m.Fold || rx.Has(re, rx.Defs{}, rx.KFold) {
+		c.Count("quoted_literal_patterns_with_fold_flag", 1)
+	}
+	c10Compare(c, s, texts, "quoted")
+}
+
 // c10Regex: a random small expression with every construct, on derived strings.
 func c10Regex(c *fw.Ctx, r *rand.Rand) {
 	m := rx.Mode{Bytes: r.Intn(4) == 0, Fold: r.Intn(4) == 0}
@@ -982,6 +1058,10 @@ func c10Run(c *fw.Ctx) {
 	i -= p.classes
 	if i < p.chars {
 		for k := 0; k < p.perChars; k++ {
+			if k%3 == 2 {
+				c10QuoteSpelling(c, c.SubRand(k))
+				continue
+			}
 			c10CharSpelling(c, c.SubRand(k))
 		}
 		return
@@ -1044,7 +1124,7 @@ func init() {
 		MinNontrivial: func(tier string) int { return map[string]int{"thorough": 20000}[tier] + 1500 },
 		RequiredCounters: []string{"patterns_valid", "patterns_malformed", "malformed_rejected", "error_offsets_checked", "class_points_member", "class_points_nonmember",
 			"classes_swept_over_all_code_points", "unicode_class_patterns", "random_class_patterns", "char_spelling_patterns", "regex_patterns", "constant_patterns",
-			"fuzzed_rejected", "fuzzed_accepted", "fold_consistency_pairs", "fold_quote_probes", "invalid_utf8_probes", "nullable_patterns_rejected_by_compile", "empty_patterns_probed"},
+			"fuzzed_rejected", "fuzzed_accepted", "fold_consistency_pairs", "fold_quote_probes", "invalid_utf8_probes", "nullable_patterns_rejected_by_compile", "empty_patterns_probed", "quoted_literal_patterns_with_fold_flag"},
 		CPUBudget: 900,
 	})
 }
